@@ -32,7 +32,7 @@ GProducer ==
           \/ r >= 5 /\ Producer(CancelsSection(ks)) /\ Rec(Lab("cancels", <<>>, <<>>, ks))
 AB(f) == f \in AsBuilt
 GLoop == \/ (StartCycle \/ BuildNone \/ OnSent \/ Count \/ DoRefresh(AB("Refresh"))) /\ UNCHANGED hist
-         \/ Finish(AsBuilt \cap {"Empty", "Mark"}) /\ UNCHANGED hist
+         \/ Finish(AsBuilt \cap {"Empty", "Mark", "Merge"}) /\ UNCHANGED hist
          \/ (Snapshot \/ (\E c \in Cids : BuildCancel(c)) \/ BuildPeer \/ BuildBcst \/ Send) /\ Rec(L)
          \/ rbs < MaxRb /\ pc = "rest" /\ RebroadcastReq /\ Rec(Lab("rb", <<>>, <<>>, <<>>))
 Flush == /\ Len(hist) >= E
